@@ -16,6 +16,10 @@ RULE = ("auth (L1): the real handlers obtained from the app's MsgServiceRouter (
         "transaction signed by a stranger; directly and as MsgExec without grant); then the table evolving through AddAccount/RemoveAccount transactions. Hash over all stores but auth. "
         "Two worlds per run and family (a `reset` line between them): (0) every role store populated, (1) the single-value admin field EMPTY (oracle admin_address \"\", as in the default oracle genesis; no message can "
         "set it) and a clp whitelist listing only a stranger (the clp genesis refuses an empty one) - in world 1 both families run the full matrix handler x 14 accounts, so every role holder tries the messages of every other role. "
+        "Margin world (both worlds, both families; set-up through keepers and the real Open/Swap handlers): pool xxx 1e26/1e26 enabled for margin, safety factor 1.05, a trader's two 2x LONG positions, a whale swap that more than halves the "
+        "price - both positions unhealthy, so MsgForceClose (position 1) and MsgAdminClose (position 2) SUCCEED for a MARGIN holder and the guard is the only thing that refuses. L1: epoch length 10, height 13; all 14 accounts probe both "
+        "messages on a branch that is never written (sim lines, exact). L2: epoch length 1e6 (no block is an epoch boundary); the 12 accounts without MARGIN send both messages as signed transactions (direct / wrapped), then one holder each closes them. "
+        "Later in the histories the positions are gone and the two handlers are judged by chk lines only. "
         "Worlds: the three role stores come from the genesis file (InitGenesis): x/admin entries for the set-up roles in canonical lower case plus, each with probability 3/4, entries in other "
         "spellings (MARGIN for #11 [always], ADMIN for #12, CLPDEX for #13, TOKENREGISTRY for #5 in upper case; PMTPREWARDS for a non-address; ETHBRIDGE for a mixed-case, invalid spelling); the oracle admin "
         "and one clp-whitelist member in upper or lower case. The cfg lines give the x/admin table from the RAW store keys. Directed: a genesis upper-case entry is used, 'removed' under the canonical "
